@@ -225,6 +225,9 @@ func c29Core(d *c29Domain, n int) []int {
 		if len(core) >= n {
 			break
 		}
+		if taken[i] {
+			continue // the harness types are all in the core: they do not use up the quota of their class
+		}
 		cl := c29KindClass(rt)
 		if perClass[cl] < quota(rt) {
 			perClass[cl]++
@@ -258,6 +261,9 @@ func (k *c29Checker) pairs(core []int, ts []xr.Type, std *c29Std) {
 		ok   func(t, u r.Type) bool
 	}
 	preds := []pred{
+		// the types of the core are compiled types: two of them are identical iff they are the same reflect.Type
+		{"IdenticalTo", func(t, u xr.Type) bool { return t.IdenticalTo(u) }, func(t, u r.Type) bool { return t == u },
+			func(t, u gotypes.Type) bool { return gotypes.Identical(t, u) }, nil},
 		{"AssignableTo", func(t, u xr.Type) bool { return t.AssignableTo(u) }, func(t, u r.Type) bool { return t.AssignableTo(u) },
 			func(t, u gotypes.Type) bool { return gotypes.AssignableTo(t, u) }, nil},
 		{"ConvertibleTo", func(t, u xr.Type) bool { return t.ConvertibleTo(u) }, func(t, u r.Type) bool { return t.ConvertibleTo(u) },
